@@ -18,7 +18,7 @@
             rhs = np.array(func(step, y, *args)); y_0 = y + dt * rhs; y += dt/2 * (rhs + func(step, y_0, *args))
         Before that fix `rhs` WAS the buffer and was overwritten by the second call (`alias = true` below models the
         old loop; the current code is `alias = false`). *)
-From Coq Require Import List ZArith QArith Qcanon Bool Arith.
+From Coq Require Import List ZArith QArith Qcanon Bool Arith Qround.
 From PV Require Import History.
 Import ListNotations.
 Open Scope nat_scope.
@@ -289,3 +289,13 @@ Definition e_f64 : Qc := Q2Qc (6121026514868073 # 2251799813685248).
 Definition is_fortran (b : backend) : bool := match b with BFortran => true | _ => false end.
 (* guard of the finding: the model uses pi and the backend is Fortran *)
 Definition fortran_pi_free (b : backend) (uses_pi : bool) : bool := fixed_fortran_pi || negb (uses_pi && is_fortran b).
+
+(* ================================================================================================ step-count cadence *)
+(* steps = int(np.round(T/dt)), store_steps = int(np.round(T/dts)), store_step = int(np.round(dts/dt)) in every fixed-step loop
+   (base, torch, jax).  np.round is round-half-to-even; the code applies it to the FLOAT quotient, the model to the exact rational. *)
+Definition round_half_even (q : Qc) : Z :=
+  let f := Qfloor (this q) in
+  let r := (q - Q2Qc (inject_Z f))%Qc in
+  if Qcltb r half then f else if Qcltb half r then (f + 1)%Z else if Z.even f then f else (f + 1)%Z.
+Definition cadence (T dt dts : Qc) : nat * nat * nat :=
+  (Z.to_nat (round_half_even (T / dt)%Qc), Z.to_nat (round_half_even (T / dts)%Qc), Z.to_nat (round_half_even (dts / dt)%Qc)).
